@@ -21,7 +21,14 @@ LEVEL_TEXT = ("Theorems in Coq over the World model (Cluster/Model.v, one action
               "independently, monitors check on the real cluster that no acknowledged write is missing from any leader of its term or later, "
               "that followers acknowledge only prefixes of their leader's log, that commit offsets rest on a quorum, that elected leaders "
               "have a maximal head and are unique per term, and that a new leader's database equals the replay of its log.")
-LEVEL_NOTE = ("Partial: (1) ensemble changes are outside the proved theorem (refuted: O-22); (2) the code-level theorem carries the side "
+LEVEL_NOTE = ("Partial: (0) the positive theorems are for executions in which EVERY node keeps its disk (c01_all_disks_kept_is_run_code: the "
+              "disk-loss-free executions of DiskLoss.xrun are exactly those of run_code); the property's weaker clause 'a majority of the ensemble "
+              "keeps its disk' is REFUTED for the protocol as implemented (c01_refuted_minority_disk_loss: a node that lost its disk answers NewTerm "
+              "like a node that never held anything and counts for the election's majority) and REPRODUCED on the real cluster "
+              "(signature diskloss:acked-write-lost-after-minority-disk-loss, corpus/cluster/08-minority-disk-loss.case, open finding); traces with "
+              "a disk loss are validated against DiskLoss.xstep, a loss of data is attributed to a disk loss only when a node that lost its disk "
+              "held the lost entry, and no verdict is given when a majority lost disks; "
+              "(1) ensemble changes are outside the proved theorem (refuted: O-22); (2) the code-level theorem carries the side "
               "condition consistent_run (refuted without it: O-3b); (3) the model treats a node's log as one list: a prefix installed as a DB "
               "snapshot is invisible to the code paths that read the WAL (NewTerm head report, truncateFollowerIfNeeded, duplicate detection) -- "
               "three further open findings found by the monitors; model validation of a trace stops at the first of them, the monitors go on; "
@@ -34,11 +41,12 @@ TRUSTED = ["in-process replacement of gRPC between servers and from the coordina
            "unary calls that are delivered, failed or left pending by the scheduler)",
            "Pebble and the WAL as durable stores across a clean process stop (C07/C09/C10 cover crashes inside them)"]
 ASSUMES = ["fixed ensemble (no_swap) and consistent_run for the proved theorem; both side conditions are refuted without them (open findings)",
-           "a majority of the ensemble keeps its disk (no DiskLoss action in the traces)"]
+           "every node keeps its disk, for the positive theorems (the clause 'a majority keeps its disk' is refuted: c01_refuted_minority_disk_loss, "
+           "reproduced as diskloss:acked-write-lost-after-minority-disk-loss); disk losses occur only in the dedicated trace profile and the scripted schedule"]
 RULE = ("trace: seeded schedules over {deliver append/ack, open stream, snapshot, truncate, NewTerm ok/fail, grace expiry, BecomeLeader, "
         "AddFollower, DeleteShard, catch-up, client put/cput/delete/delete-range/get/list/scan on leaders and deposed leaders, crash, restart, "
-        "cut/heal link, node failure notification, swap, coordinator restart} on 3 nodes rf 3, 4 nodes rf 3 (swaps), 5 nodes rf 3/5; "
-        "distinct by the whole action list; scripted corpus (basic, O-22 swap, figure 8, O-3b single truncate round, snapshot-node empty head) first")
+        "cut/heal link, node failure notification, swap, coordinator restart, client context cancellation, Truncate redelivery, disk loss (own profile)} on 3 nodes rf 3, 4 nodes rf 3 (swaps), 5 nodes rf 3/5; "
+        "distinct by the whole action list; scripted corpus (basic, O-22 swap, figure 8, O-3b single truncate round, snapshot-node empty head, skipped-term follower, cancelled write, redelivered Truncate, minority disk loss) first")
 LEGS = [
     {"name": "cluster", "harness": "cluster", "model": "cluster", "n_quick": 60, "n_thorough": 4000,
      "corpus": "corpus/cluster", "timeout": 900, "timeout_thorough": 6000, "args": ["-mode", "c01"]},
